@@ -536,27 +536,31 @@ def rule_reader_validates(ctx: Ctx, rule: str = "reader-validates") -> None:
         for k in _membership_keys(t):
             # the failing branch must raise a documented error
             checks.setdefault(k, []).append(n.id)
+    roots = with_new_helpers(prog, fi)
     loopvars = set()
-    for node in ast.walk(fi.node):
-        if isinstance(node, ast.For) and isinstance(node.target, ast.Name):
-            loopvars.add(node.target.id)
+    for root in roots:
+        for node in ast.walk(root):
+            if isinstance(node, ast.For) and isinstance(node.target, ast.Name):
+                loopvars.add(node.target.id)
+        if root is not fi.node:
+            # an extracted helper receives the entry (or the document) as a parameter
+            loopvars |= {a.arg for a in root.args.args}
     seen = 0
-    for n in cfg.stmts():
-        if n.ast is None:
-            continue
-        for sub in ast.walk(n.ast) if n.kind != "test" else ast.walk(n.ast):
+    subs = [sub for root in roots for sub in ast.walk(root)]
+    for sub in subs:
+        if True:
             if isinstance(sub, ast.Subscript) and isinstance(sub.value, ast.Name) and sub.value.id in loopvars and isinstance(sub.slice, ast.Constant) and isinstance(sub.slice.value, str):
                 k = sub.slice.value
                 seen += 1
                 construct = "read_contracts_from_file: entry[%r] is checked before it is read" % k
-                okc = _key_checked(fi, k)
+                okc = any(_key_checked_in(root, k) for root in roots)
                 if okc:
                     ctx.ok(rule, fi.key, construct, nontrivial=False)
                 else:
                     ctx.violation(rule, fi.key, construct, "entry[%r] is dereferenced without a preceding `%r in entry` check that raises a documented error (KeyError escapes for a malformed file)" % (k, k), where="%s:%d" % (fi.module.relpath, sub.lineno))
     ctx.floor("entry dereferences in the file reader", seen, 3)
     # 2. every dispatched representation is validated before construction
-    for node in ast.walk(fi.node):
+    for node in (x for root in roots for x in ast.walk(root)):
         if isinstance(node, ast.If) and isinstance(node.test, ast.Compare) and isinstance(node.test.comparators[0], ast.Constant) and isinstance(node.test.comparators[0].value, str):
             tag = node.test.comparators[0].value
             body_calls = [norm(c.func) for st in node.body for c in ast.walk(st) if isinstance(c, ast.Call)]
@@ -578,9 +582,17 @@ def _membership_keys(t: ast.AST) -> List[str]:
 
 
 def _key_checked(fi: FuncInfo, key: str) -> bool:
+    return _key_checked_in(fi.node, key)
+
+
+def _key_checked_in(fn_node: ast.AST, key: str) -> bool:
     """Is there, before the dispatch loop, an `if <key> not in entry: raise Documented` (directly or via a loop over a
     tuple of keys)?  Asserts do not count (AssertionError is not documented and vanishes under -O)."""
-    exc = ExcTable()
+
+    class _F:
+        node = fn_node
+
+    fi = _F()
     for node in ast.walk(fi.node):
         if isinstance(node, ast.If) and _always_leaves(node.body) and isinstance(node.body[-1], ast.Raise):
             cls = exc_class_of(node.body[-1].exc)
@@ -637,8 +649,8 @@ def rule_validator_covers(ctx: Ctx, rule: str = "validator-covers") -> None:
                     used_top.add(node.slice.value)
                 elif isinstance(node.value, ast.Name):
                     used_clause.add(node.slice.value)
-    req_top = _required_keys(val)
-    req_clause = _required_keys(chk)
+    req_top = _required_keys(val, prog)
+    req_clause = _required_keys(chk, prog)
     for k in sorted(used_top):
         construct = "validate_contract_dict requires top-level key %r that from_dict reads" % k
         (ctx.ok(rule, val.key, construct) if k in req_top else ctx.violation(rule, val.key, construct, "key %r is read by from_dict but not required by the validator" % k, where=val.where))
@@ -652,8 +664,28 @@ def rule_validator_covers(ctx: Ctx, rule: str = "validator-covers") -> None:
     (ctx.ok(rule, val.key, construct) if any(c.endswith("_check_clause") for c in calls) else ctx.violation(rule, val.key, construct, "no call of _check_clause", where=val.where))
 
 
-def _required_keys(fi: FuncInfo) -> Set[str]:
-    """Keys k for which the function has `if k not in X: raise ...` (also through `for kw in [..]`)."""
+def _helper_requires_param(prog: Program, name: str, argpos: int, kwname: Optional[str]) -> bool:
+    """A private helper that did not exist on the reference tree has `if <param> not in X: raise` for the parameter
+    that receives the key."""
+    from .pathsim import is_new_helper
+
+    for k, g in prog.funcs.items():
+        if g.name != name or not is_new_helper(k) or isinstance(g.node, ast.Lambda):
+            continue
+        params = list(g.params)
+        pname = kwname if kwname in params else (params[argpos] if argpos is not None and argpos < len(params) else None)
+        if pname is None:
+            continue
+        for sub in ast.walk(g.node):
+            if isinstance(sub, ast.If) and isinstance(sub.test, ast.Compare) and len(sub.test.ops) == 1 and isinstance(sub.test.ops[0], ast.NotIn) and isinstance(sub.test.left, ast.Name) and sub.test.left.id == pname:
+                if sub.body and isinstance(sub.body[0], ast.Raise):
+                    return True
+    return False
+
+
+def _required_keys(fi: FuncInfo, prog: Optional[Program] = None) -> Set[str]:
+    """Keys k for which the function has `if k not in X: raise ...` (also through `for kw in [..]`, and through a
+    newly extracted helper that is handed the key)."""
     req: Set[str] = set()
     lists: Dict[str, List[str]] = {}
     for node in ast.walk(fi.node):
@@ -675,10 +707,26 @@ def _required_keys(fi: FuncInfo) -> Set[str]:
                 if isinstance(sub, ast.If) and isinstance(sub.test, ast.Compare) and len(sub.test.ops) == 1 and isinstance(sub.test.ops[0], ast.NotIn) and isinstance(sub.test.left, ast.Name) and sub.test.left.id == node.target.id:
                     if sub.body and isinstance(sub.body[0], ast.Raise):
                         req |= set(keys)
+                if prog is not None and isinstance(sub, ast.Call):
+                    hn = sub.func.attr if isinstance(sub.func, ast.Attribute) else sub.func.id if isinstance(sub.func, ast.Name) else None
+                    if hn is None:
+                        continue
+                    for ai, a in enumerate(sub.args):
+                        if isinstance(a, ast.Name) and a.id == node.target.id and _helper_requires_param(prog, hn, ai, None):
+                            req |= set(keys)
+                    for kw_ in sub.keywords:
+                        if isinstance(kw_.value, ast.Name) and kw_.value.id == node.target.id and _helper_requires_param(prog, hn, None, kw_.arg):
+                            req |= set(keys)
     for node in ast.walk(fi.node):
         if isinstance(node, ast.If) and isinstance(node.test, ast.Compare) and len(node.test.ops) == 1 and isinstance(node.test.ops[0], ast.NotIn) and isinstance(node.test.left, ast.Constant):
             if node.body and isinstance(node.body[0], ast.Raise):
                 req.add(node.test.left.value)
+        if prog is not None and isinstance(node, ast.Call):
+            hn = node.func.attr if isinstance(node.func, ast.Attribute) else node.func.id if isinstance(node.func, ast.Name) else None
+            if hn is not None:
+                for ai, a in enumerate(node.args):
+                    if isinstance(a, ast.Constant) and isinstance(a.value, str) and _helper_requires_param(prog, hn, ai, None):
+                        req.add(a.value)
     return req
 
 
@@ -862,19 +910,21 @@ def rule_validator_types(ctx: Ctx, rule: str = "validator-types") -> None:
     # top level: every field is a list; a test that a string also passes (Sequence, Iterable, ...) lets
     # "input_vars": "i" through, which is then read character by character
     val = prog.func("serializer.validate_contract_dict")
-    p0v = val.params[0]
-    fl = Flow(val.node)
-    field_names = set()
-    for nm, defs in fl.defs.items():
-        if any(isinstance(d, ast.Subscript) and isinstance(d.value, ast.Name) and d.value.id == p0v for d in defs):
-            field_names.add(nm)
     tests = []
-    for node in ast.walk(val.node):
-        if isinstance(node, ast.Call) and isinstance(node.func, ast.Name) and node.func.id == "isinstance" and len(node.args) == 2:
-            a0 = node.args[0]
-            direct = isinstance(a0, ast.Subscript) and isinstance(a0.value, ast.Name) and a0.value.id == p0v
-            if (isinstance(a0, ast.Name) and a0.id in field_names) or direct:
-                tests.append(node)
+    for root in with_new_helpers(prog, val):
+        # in the validator itself the dictionary is its first parameter; an extracted helper receives it as one of its own
+        dict_params = {val.params[0]} if root is val.node else {a.arg for a in root.args.args}
+        fl = Flow(root)
+        field_names = set()
+        for nm, defs in fl.defs.items():
+            if any(isinstance(d, ast.Subscript) and isinstance(d.value, ast.Name) and d.value.id in dict_params for d in defs):
+                field_names.add(nm)
+        for node in ast.walk(root):
+            if isinstance(node, ast.Call) and isinstance(node.func, ast.Name) and node.func.id == "isinstance" and len(node.args) == 2:
+                a0 = node.args[0]
+                direct = isinstance(a0, ast.Subscript) and isinstance(a0.value, ast.Name) and a0.value.id in dict_params
+                if (isinstance(a0, ast.Name) and a0.id in field_names) or direct:
+                    tests.append(node)
     construct = "validate_contract_dict: a field that is not a list is rejected (a string is not a list)"
     concrete = {"list", "tuple", "List", "Tuple", "MutableSequence"}
     str_accepting = {"Sequence", "Iterable", "Collection", "Container", "Sized", "Reversible", "Hashable", "object", "str"}
@@ -1015,135 +1065,257 @@ def _zero_tests(test: ast.AST) -> List[str]:
     return out
 
 
+class _DivEvidence:
+    """Evidence, inside one function, that an expression is non-zero at a given statement."""
+
+    def __init__(self, fi: FuncInfo):
+        self.fi = fi
+        self.fl = Flow(fi.node)
+        self.parents: Dict[ast.AST, ast.AST] = {}
+        for nd in ast.walk(fi.node):
+            for ch in ast.iter_child_nodes(nd):
+                self.parents[ch] = nd
+
+    def defs_of(self, name: str) -> List[ast.AST]:
+        return self.fl.defs.get(name, [])
+
+    def from_vars_of(self, e: ast.AST, holder: str, depth: int = 0) -> bool:
+        """e denotes a variable that occurs in <holder>: an element of list_intersection(.., holder.vars)."""
+        if depth > 4:
+            return False
+        if isinstance(e, ast.Subscript):
+            return self.from_vars_of(e.value, holder, depth + 1)
+        if isinstance(e, ast.Call) and isinstance(e.func, ast.Name) and e.func.id == "list_intersection":
+            return any(canon(a) == holder + ".vars" for a in e.args)
+        if isinstance(e, ast.Attribute) and canon(e) == holder + ".vars":
+            return True
+        if isinstance(e, ast.Name):
+            ds = self.defs_of(e.id)
+            return bool(ds) and all(self.from_vars_of(d, holder, depth + 1) for d in ds)
+        return False
+
+    def guarded_membership(self, var: ast.AST, holder: str, site: ast.AST) -> bool:
+        for nd in ast.walk(self.fi.node):
+            if isinstance(nd, ast.If) and nd.lineno < getattr(site, "lineno", 10**9) and _stmt_exits(nd.body):
+                t = nd.test
+                if isinstance(t, ast.Compare) and len(t.ops) == 1 and isinstance(t.ops[0], ast.NotIn) and canon(t.left) == canon(var) and canon(t.comparators[0]) == holder + ".vars":
+                    return True
+                if isinstance(t, ast.UnaryOp) and isinstance(t.op, ast.Not) and isinstance(t.operand, ast.Call) and canon(t.operand.func) == holder + ".contains_var" and canon(t.operand.args[0]) == canon(var):
+                    return True
+        return False
+
+    def coefficient_of_present(self, d: ast.AST, site: ast.AST, depth: int = 0) -> Optional[str]:
+        if depth > 3:
+            return None
+        if isinstance(d, ast.Call) and isinstance(d.func, ast.Attribute) and d.func.attr == "get_coefficient" and len(d.args) == 1:
+            holder = canon(d.func.value)
+            if self.from_vars_of(d.args[0], holder) or self.guarded_membership(d.args[0], holder, site):
+                return "coefficient of a variable that occurs in %s" % holder
+        if isinstance(d, ast.Subscript):
+            base = d.value
+            if isinstance(base, ast.Attribute) and base.attr == "variables":
+                holder = canon(base.value)
+                if self.from_vars_of(d.slice, holder) or self.guarded_membership(d.slice, holder, site):
+                    return "stored coefficient of a variable that occurs in %s" % holder
+            if isinstance(base, ast.Name):
+                for df in self.defs_of(base.id):
+                    if isinstance(df, ast.DictComp) and len(df.generators) == 1:
+                        g = df.generators[0]
+                        val = df.value
+                        if isinstance(val, ast.Call) and isinstance(val.func, ast.Attribute) and val.func.attr == "get_coefficient" and canon(val.args[0]) == canon(g.target) == canon(df.key):
+                            holder = canon(val.func.value)
+                            if self.from_vars_of(g.iter, holder) and (self.from_vars_of(d.slice, holder)):
+                                return "coefficient of a variable that occurs in %s (via %s)" % (holder, base.id)
+        if isinstance(d, ast.Name):
+            ds = self.defs_of(d.id)
+            rs = [self.coefficient_of_present(x, site, depth + 1) for x in ds]
+            if rs and all(rs):
+                return rs[0]
+        return None
+
+    def _enum_canon(self, e: ast.AST) -> str:
+        """canon(e) with every `for i, v in enumerate(L)` element name v written as L[i]"""
+        import copy as _copy
+
+        m: Dict[str, ast.AST] = {}
+        for nd in ast.walk(self.fi.node):
+            if isinstance(nd, (ast.For, ast.comprehension)) and isinstance(nd.iter, ast.Call) and isinstance(nd.iter.func, ast.Name) and nd.iter.func.id == "enumerate" and len(nd.iter.args) == 1:
+                t = nd.target
+                if isinstance(t, ast.Tuple) and len(t.elts) == 2 and all(isinstance(x, ast.Name) for x in t.elts):
+                    m[t.elts[1].id] = ast.Subscript(value=_copy.deepcopy(nd.iter.args[0]), slice=ast.Name(id=t.elts[0].id, ctx=ast.Load()), ctx=ast.Load())
+        if not m:
+            return canon(e)
+
+        class S(ast.NodeTransformer):
+            def visit_Name(self, nd):
+                return _copy.deepcopy(m[nd.id]) if nd.id in m else nd
+
+        return canon(ast.fix_missing_locations(S().visit(_copy.deepcopy(e))))
+
+    def zero_guarded(self, d: ast.AST, site: ast.AST) -> bool:
+        want = self._enum_canon(d)
+        cur: ast.AST = site
+        while cur in self.parents:
+            par = self.parents[cur]
+            for fld in ("body", "orelse"):
+                blk = getattr(par, fld, None)
+                if isinstance(blk, list) and any(cur is s_ for s_ in blk):
+                    for s_ in blk:
+                        if s_ is cur:
+                            break
+                        if isinstance(s_, ast.If) and want in self._zero_tests_canon(s_.test) and _stmt_exits(s_.body):
+                            return True
+            if isinstance(par, ast.If) and any(cur is s_ for s_ in par.orelse) and want in self._zero_tests_canon(par.test):
+                return True
+            cur = par
+        return False
+
+    def _zero_tests_canon(self, test: ast.AST) -> List[str]:
+        out: List[str] = []
+        if isinstance(test, ast.BoolOp) and isinstance(test.op, ast.Or):
+            for v in test.values:
+                out += self._zero_tests_canon(v)
+        elif isinstance(test, ast.Compare) and len(test.ops) == 1 and isinstance(test.ops[0], ast.Eq):
+            l, r = test.left, test.comparators[0]
+            if isinstance(r, ast.Constant) and r.value == 0:
+                out.append(self._enum_canon(l))
+            if isinstance(l, ast.Constant) and l.value == 0:
+                out.append(self._enum_canon(r))
+        elif isinstance(test, ast.UnaryOp) and isinstance(test.op, ast.Not):
+            out.append(self._enum_canon(test.operand))
+        return out
+
+    def stmt_of(self, node: ast.AST) -> ast.AST:
+        cur = node
+        while cur in self.parents and not isinstance(cur, ast.stmt):
+            cur = self.parents[cur]
+        return cur
+
+    def evidence(self, den: ast.AST, site: ast.AST) -> Optional[str]:
+        if isinstance(den, ast.Constant) and isinstance(den.value, (int, float)) and den.value != 0:
+            return "non-zero literal"
+        st = self.stmt_of(site)
+        if self.zero_guarded(den, st):
+            return "tested against zero on the way, the zero branch leaves"
+        # a local bound once to the tested expression
+        if isinstance(den, ast.Name):
+            ds = self.defs_of(den.id)
+            if len(ds) == 1 and self.zero_guarded(ds[0], st):
+                return "tested against zero on the way, the zero branch leaves"
+        why = self.coefficient_of_present(den, st)
+        if why:
+            return why + " (stored coefficients are non-zero: kernel laws)"
+        return None
+
+
 def rule_division_sites(ctx: Ctx, rule: str = "division-by-zero") -> None:
     """C14: ZeroDivisionError is not a documented error.  Every true division in the library (plots excluded, C18) has a
     denominator that is (a) a non-zero literal, (b) the stored coefficient of a variable known to occur in the term
     (stored coefficients are non-zero: the kernel laws of this check), or (c) tested against zero on the way, the zero
-    branch leaving.  A denominator that is a number parsed from the constraint string and not tested is a violation."""
+    branch leaving.  In a private helper that did not exist on the reference tree the evidence may also sit in every
+    caller (the helper's parameters replaced by the arguments).  A denominator that is a number parsed from the
+    constraint string and not tested is a violation."""
+    from .pathsim import is_new_helper
+
     prog = ctx.prog
     n = 0
+    ev_cache: Dict[str, _DivEvidence] = {}
+
+    def ev_of(f: FuncInfo) -> _DivEvidence:
+        if f.key not in ev_cache:
+            ev_cache[f.key] = _DivEvidence(f)
+        return ev_cache[f.key]
+
+    def callers_evidence(fi: FuncInfo, den: ast.AST, depth: int = 0) -> Optional[str]:
+        """the evidence found in every caller of a new private helper, with the parameters replaced by the arguments"""
+        if depth > 2 or not (fi.name.startswith("_") and is_new_helper(fi.key)):
+            return None
+        import copy as _copy
+
+        sites = []
+        for g in prog.all_functions():
+            if isinstance(g.node, ast.Lambda) or g is fi:
+                continue
+            for c in ast.walk(g.node):
+                if isinstance(c, ast.Call) and ((isinstance(c.func, ast.Attribute) and c.func.attr == fi.name) or (isinstance(c.func, ast.Name) and c.func.id == fi.name)):
+                    sites.append((g, c))
+        if not sites:
+            return None
+        reasons = []
+        for g, c in sites:
+            params = list(fi.params)
+            if fi.kind in ("method", "property", "classmethod") and isinstance(c.func, ast.Attribute):
+                bind = {params[0]: c.func.value}
+                params = params[1:]
+            else:
+                bind = {}
+            for pn, a in zip(params, c.args):
+                bind[pn] = a
+            for k in c.keywords:
+                if k.arg:
+                    bind[k.arg] = k.value
+
+            class Sub(ast.NodeTransformer):
+                def visit_Name(self, nd):
+                    return _copy.deepcopy(bind[nd.id]) if nd.id in bind else nd
+
+            den_l = _copy.deepcopy(den)
+            hev = ev_of(fi)
+
+            class Loc(ast.NodeTransformer):
+                def visit_Name(self, nd):
+                    ds = hev.defs_of(nd.id)
+                    if nd.id not in fi.params and len(ds) == 1 and isinstance(ds[0], ast.expr) and not any(isinstance(x, ast.Name) and x.id == nd.id for x in ast.walk(ds[0])):
+                        return _copy.deepcopy(ds[0])
+                    return nd
+
+            den_l = Loc().visit(den_l)
+            den2 = ast.fix_missing_locations(Sub().visit(den_l))
+            r = ev_of(g).evidence(den2, c) or callers_evidence(g, den2, depth + 1)
+            if r is None:
+                return None
+            reasons.append("%s in %s" % (r, g.key))
+        return "; ".join(sorted(set(reasons)))
+
+    def parsed_number(fi: FuncInfo, d: ast.AST) -> bool:
+        """the denominator is an element of the parser's token chain (a number written in the constraint string)"""
+        if not fi.module.relpath.endswith("grammar.py"):
+            return False
+        e = ev_of(fi)
+        names = {x.id for x in ast.walk(d) if isinstance(x, ast.Name)}
+        seen = set()
+        work = list(names)
+        while work:
+            nm = work.pop()
+            if nm in seen:
+                continue
+            seen.add(nm)
+            if nm in fi.params:
+                return True
+            for df in e.defs_of(nm):
+                work += [x.id for x in ast.walk(df) if isinstance(x, ast.Name)]
+        return False
+
     for fi in prog.all_functions():
         if isinstance(fi.node, ast.Lambda) or fi.module.relpath.endswith("plots.py"):
             continue
         sites = [nd for nd in ast.walk(fi.node) if (isinstance(nd, ast.BinOp) and isinstance(nd.op, ast.Div)) or (isinstance(nd, ast.AugAssign) and isinstance(nd.op, ast.Div))]
-        if not sites:
-            continue
-        fl = Flow(fi.node)
-        parents: Dict[ast.AST, ast.AST] = {}
-        for nd in ast.walk(fi.node):
-            for ch in ast.iter_child_nodes(nd):
-                parents[ch] = nd
-
-        def defs_of(name: str) -> List[ast.AST]:
-            return fl.defs.get(name, [])
-
-        def from_vars_of(e: ast.AST, holder: str, depth: int = 0) -> bool:
-            """e denotes a variable that occurs in <holder>: an element of list_intersection(.., holder.vars)."""
-            if depth > 4:
-                return False
-            if isinstance(e, ast.Subscript):
-                return from_vars_of(e.value, holder, depth + 1)
-            if isinstance(e, ast.Call) and isinstance(e.func, ast.Name) and e.func.id == "list_intersection":
-                return any(canon(a) == holder + ".vars" for a in e.args)
-            if isinstance(e, ast.Attribute) and canon(e) == holder + ".vars":
-                return True
-            if isinstance(e, ast.Name):
-                ds = defs_of(e.id)
-                return bool(ds) and all(from_vars_of(d, holder, depth + 1) for d in ds)
-            return False
-
-        def guarded_membership(var: ast.AST, holder: str, site: ast.AST) -> bool:
-            for nd in ast.walk(fi.node):
-                if isinstance(nd, ast.If) and nd.lineno < site.lineno and _stmt_exits(nd.body):
-                    t = nd.test
-                    if isinstance(t, ast.Compare) and len(t.ops) == 1 and isinstance(t.ops[0], ast.NotIn) and canon(t.left) == canon(var) and canon(t.comparators[0]) == holder + ".vars":
-                        return True
-                    if isinstance(t, ast.UnaryOp) and isinstance(t.op, ast.Not) and isinstance(t.operand, ast.Call) and canon(t.operand.func) == holder + ".contains_var" and canon(t.operand.args[0]) == canon(var):
-                        return True
-            return False
-
-        def coefficient_of_present(d: ast.AST, site: ast.AST, depth: int = 0) -> Optional[str]:
-            if depth > 3:
-                return None
-            if isinstance(d, ast.Call) and isinstance(d.func, ast.Attribute) and d.func.attr == "get_coefficient" and len(d.args) == 1:
-                holder = canon(d.func.value)
-                if from_vars_of(d.args[0], holder) or guarded_membership(d.args[0], holder, site):
-                    return "coefficient of a variable that occurs in %s" % holder
-            if isinstance(d, ast.Subscript):
-                base = d.value
-                if isinstance(base, ast.Attribute) and base.attr == "variables":
-                    holder = canon(base.value)
-                    if from_vars_of(d.slice, holder) or guarded_membership(d.slice, holder, site):
-                        return "stored coefficient of a variable that occurs in %s" % holder
-                if isinstance(base, ast.Name):
-                    for df in defs_of(base.id):
-                        if isinstance(df, ast.DictComp) and len(df.generators) == 1:
-                            g = df.generators[0]
-                            val = df.value
-                            if isinstance(val, ast.Call) and isinstance(val.func, ast.Attribute) and val.func.attr == "get_coefficient" and canon(val.args[0]) == canon(g.target) == canon(df.key):
-                                holder = canon(val.func.value)
-                                if from_vars_of(g.iter, holder) and (from_vars_of(d.slice, holder)):
-                                    return "coefficient of a variable that occurs in %s (via %s)" % (holder, base.id)
-            if isinstance(d, ast.Name):
-                ds = defs_of(d.id)
-                rs = [coefficient_of_present(x, site, depth + 1) for x in ds]
-                if rs and all(rs):
-                    return rs[0]
-            return None
-
-        def zero_guarded(d: ast.AST, site: ast.AST) -> bool:
-            want = canon(d)
-            # an enclosing or preceding `if <want> == 0 ...: leave` in a block that contains the site
-            cur: ast.AST = site
-            while cur in parents:
-                par = parents[cur]
-                for fld in ("body", "orelse"):
-                    blk = getattr(par, fld, None)
-                    if isinstance(blk, list) and any(cur is s_ for s_ in blk):
-                        for s_ in blk:
-                            if s_ is cur:
-                                break
-                            if isinstance(s_, ast.If) and want in _zero_tests(s_.test) and _stmt_exits(s_.body):
-                                return True
-                if isinstance(par, ast.If) and any(cur is s_ for s_ in par.orelse) and want in _zero_tests(par.test):
-                    return True
-                cur = par
-            return False
-
-        def parsed_number(d: ast.AST) -> bool:
-            """the denominator is an element of the parser's token chain (a number written in the constraint string)"""
-            if not fi.module.relpath.endswith("grammar.py"):
-                return False
-            names = {x.id for x in ast.walk(d) if isinstance(x, ast.Name)}
-            seen = set()
-            work = list(names)
-            while work:
-                nm = work.pop()
-                if nm in seen:
-                    continue
-                seen.add(nm)
-                if nm in fi.params:
-                    return True
-                for df in defs_of(nm):
-                    work += [x.id for x in ast.walk(df) if isinstance(x, ast.Name)]
-            return False
-
         for site in sites:
             den = site.right if isinstance(site, ast.BinOp) else site.value
             n += 1
             construct = "%s: division by %s cannot raise ZeroDivisionError" % (fi.key.split(".")[-1], norm(den)[:60])
             where = "%s:%d" % (fi.module.relpath, site.lineno)
-            if isinstance(den, ast.Constant) and isinstance(den.value, (int, float)) and den.value != 0:
-                ctx.ok(rule, fi.key, construct, "non-zero literal", nontrivial=False)
-                continue
-            if zero_guarded(den, site):
-                ctx.ok(rule, fi.key, construct, "tested against zero on the way, the zero branch leaves")
-                continue
-            why = coefficient_of_present(den, site)
+            why = ev_of(fi).evidence(den, site)
+            if why is None:
+                # the denominator may be a local bound to an expression over the helper's parameters
+                d2 = den
+                if isinstance(den, ast.Name) and len(ev_of(fi).defs_of(den.id)) == 1:
+                    d2 = ev_of(fi).defs_of(den.id)[0]
+                why = callers_evidence(fi, d2)
             if why:
-                ctx.ok(rule, fi.key, construct, why + " (stored coefficients are non-zero: kernel laws)")
+                ctx.ok(rule, fi.key, construct, why, nontrivial=not why.startswith("non-zero literal"))
                 continue
-            if parsed_number(den):
+            if parsed_number(fi, den):
                 ctx.violation(rule, fi.key, construct, "the denominator is a number written in the constraint string and is not tested: '(1/0) x <= 1' escapes as ZeroDivisionError instead of the syntax error", where=where)
                 continue
             ctx.cannot_decide(rule, fi.key, construct, "no evidence found that the denominator is non-zero")
